@@ -28,7 +28,7 @@ if ROOT not in sys.path:
 from engine import core  # noqa: E402
 
 KF_PATH = os.path.join(ROOT, 'known_findings.json')
-EVID_DIR = os.path.join(ROOT, 'evidence')
+EVID_DIR = os.environ.get('VERIF_EVIDENCE_DIR') or os.path.join(ROOT, 'evidence')  # (override: developer runs against scratch trees must not touch the real evidence)
 
 
 def load_known(prop):
